@@ -327,7 +327,7 @@ class LinearPaths:
     ortag = merged.get("or")
     if isinstance(ortag, list):
       merged.set_datatype("or", "Z")
-      merged.set("or", ",".join(ortag))
+      merged.set("or", ",".join(str(o) for o in ortag))
     if not gfapy.is_placeholder(merged.sequence):
       merged.sequence = "".join(merged.sequence)
       if self._version == "gfa1":
